@@ -1,4 +1,4 @@
-From InfOCF Require Import Core Tol SysZ SysW Lex Kz Form Model Spec Diag Mcs Cnf.
+From InfOCF Require Import Core Tol SysZ SysW Lex Kz Form Model Spec Diag Mcs Cnf CInf CModel.
 (* Entry points evaluated by the correspondence check (extracted to OCaml, or by vm_compute). *)
 Definition is_none {A} (o:option A) : bool := match o with None => true | Some _ => false end.
 
@@ -39,3 +39,10 @@ Definition run_faithful (nv:nat) (amap:list nat) (f:form) (c:cnf) : bool := chec
 Definition run_mcs (nv:nat) (hard:cnf) (g:groups) : list (list nat) * option (list (list nat)) :=
   (map (keys_of_bv g) (mcs_clause nv hard g),
    match mcs_loop nv hard g with Some r => Some (map (keys_of_bv g) (remove_supersets r)) | None => None end).
+
+(* C05 *)
+Definition run_cinf (n:nat) (D qs:list cond) (wit:list (nat * list nat)) (bound:nat) :=
+  (map (fun i => (map positions (vMin n D i), map positions (fMin n D i))) (seq 0 (length D)),
+   selffulfilling n D,
+   map (fun q => (map positions (qvMin n D q), map positions (qfMin n D q), search_counter n D bound q)) qs,
+   map (fun p => check_counter n D (snd p) (nth (fst p) qs {| ckey := 0; ccons := FTop; cante := FBot |})) wit).
